@@ -51,6 +51,19 @@ LIST_LOOP = re.sub(r'\s+', ' ', '''let (s, a) = g(s)?; let mut s = s; let mut re
  while let Ok((t, b)) = f(s) { if let Ok((u, c)) = g(t) { s = u; ret.push((b, c)); } else { break; } }
  Ok((s, List { nodes: (a, ret) }))''').strip()
 
+def attr_info(attrs):
+    """attribute macros of a parser function, in source order (the first listed is expanded first, so its code ends up INSIDE the
+    code of those listed after it): (memoised, memoised twice, left-recursion guard, problem). The model (Core/Peg.lean evalCall) has
+    the packrat wrapper(s) outside the recursion guard, i.e. `recursive_parser` listed before every `packrat_parser`; a function
+    carrying `#[packrat_parser]` twice looks the key up twice on a miss and inserts it twice (two entries in the FIFO queue)."""
+    names = re.findall(r'#\[\s*(\w+)', attrs)
+    n = names.count('packrat_parser'); rc = 'recursive_parser' in names
+    prob = None
+    if n > 2: prob = 'more than two packrat_parser attributes'
+    if names.count('recursive_parser') > 1: prob = 'recursive_parser repeated'
+    if rc and n and names.index('recursive_parser') > names.index('packrat_parser'): prob = 'recursive_parser listed after packrat_parser (guard outside the memo)'
+    return n >= 1, n == 2, rc, prob
+
 class Translator:
     def __init__(self):
         self.kinds = conv.node_kinds()
@@ -460,8 +473,9 @@ class Translator:
     def translate_all(self):
         prods = {}
         for (path, name, attrs, ret, body) in self.fns:
-            pk = 'packrat_parser' in attrs; rc = 'recursive_parser' in attrs
+            pk, pk2, rc, aprob = attr_info(attrs)
             try:
+                if aprob: raise Unsupported(aprob)
                 pe = self.tr_body(body)
             except Unsupported as ex:
                 self.opaque[name] = str(ex)[:120]
@@ -469,14 +483,15 @@ class Translator:
             except (KeyError, IndexError) as ex:
                 self.opaque[name] = 'internal: ' + repr(ex)[:100]
                 pe = ('fail',)
-            prods[name] = {'packrat': pk, 'recursive': rc, 'body': pe, 'file': path, 'ret': ret}
+            prods[name] = {'packrat': pk, 'packrat2': pk2, 'recursive': rc, 'body': pe, 'file': path, 'ret': ret}
         for (name, attrs, ret, body) in self.utils_fns:
-            pk = 'packrat_parser' in attrs; rc = 'recursive_parser' in attrs
+            pk, pk2, rc, aprob = attr_info(attrs)
             try:
+                if aprob: raise Unsupported(aprob)
                 pe = self.white_space(body) if name == 'white_space' else self.tr_body(body)
             except Unsupported as ex:
                 self.opaque[name] = str(ex)[:120]; pe = ('fail',)
-            prods[name] = {'packrat': pk, 'recursive': rc, 'body': pe, 'file': 'sv-parser-parser/src/utils.rs', 'ret': ret}
+            prods[name] = {'packrat': pk, 'packrat2': pk2, 'recursive': rc, 'body': pe, 'file': 'sv-parser-parser/src/utils.rs', 'ret': ret}
         return prods
 
 if __name__ == '__main__':
